@@ -1,4 +1,5 @@
 import LyModel.Ctx.Model
+import LyModel.Ctx.Yl
 /-! driver ops of component `ctx` (same script format as `harness/api_ctx.c`, see there) -/
 namespace LyModel.Ctx.Drv
 open LyModel LyModel.Ctx
@@ -75,15 +76,15 @@ def hex32 (v : BitVec 32) : String :=
 
 structure St where
   ctx : Ctx := {}
-  classes : List (MKey × List (Desc × List MKey)) := []
+  classes : List (MKey × List (Desc × List Bytes)) := []
   data : List (Bytes × Nat × Bool) := []
   out : List String := []
 
 /-- modules of the context with an identity derived from an identity of `k` (the print of `k` lists them) -/
-def derivedOf (c : Ctx) (k : MKey) : List MKey :=
-  (c.mods.filter fun m => m.src.idBase.any fun n => m.impKey n == some k).map (·.key)
+def derivedOf (c : Ctx) (k : MKey) : List Bytes :=
+  (c.mods.filter fun m => m.src.idBase.any fun n => m.impKey n == some k).map (·.src.name)
 
-def classOf (st : St) (k : MKey) (d : Desc × List MKey) : St × Nat :=
+def classOf (st : St) (k : MKey) (d : Desc × List Bytes) : St × Nat :=
   match st.classes.find? (fun e => e.1 == k) with
   | some (_, ds) =>
     let i := ds.findIdx (· == d)
@@ -170,11 +171,45 @@ def history (spec : String) : String :=
   | some st => "ok" ++ String.join (st.out.map (" " ++ ·))
   | none => "err BadSpec"
 
+/-- the history, then the context rebuilt from its yang-library data (`ly_ctx_new_yldata` into a fresh context with the
+    same module sources): one more token `Y<rc>|…` -/
+def ylhistory (spec : String) : String :=
+  let lines := (spec.splitOn "\n").filter (· ≠ "")
+  let res := lines.foldl (fun (acc : Option St) l =>
+    match acc with
+    | none => none
+    | some st =>
+      let ts := (l.splitOn " ").filter (· ≠ "")
+      match ts with
+      | "F" :: n :: _ => some { st with ctx := { st.ctx with explicit := ((n.toNat?.getD 0) &&& 128) != 0 } }
+      | "T" :: _ => some st
+      | "W" :: _ => some st
+      | "M" :: rest =>
+        match parseModSrc rest with
+        | some src =>
+          some { st with ctx := { st.ctx with repo := (st.ctx.repo.filter fun m => !(m.name == src.name && m.rev == src.rev)) ++ [src] } }
+        | none => none
+      | "S" :: _ => some st
+      | _ => step st ts) (some {})
+  match res with
+  | none => "err BadSpec"
+  | some st =>
+    let tail : String := match ylLoad st.ctx.repo (ylGen st.ctx) with
+      | .error _ => "Y1"
+      | .ok c2 =>
+        let st2 := snapshot { st with ctx := c2, data := [], out := [] } 0
+        "Y" ++ ((st2.out.getD 0 "").drop 1)
+    "ok" ++ String.join (st.out.map (" " ++ ·)) ++ " " ++ tail
+
 def handle (op : String) (args : List String) : String :=
   match op, args with
   | "history", [h] =>
     match Hex.dec h with
     | some b => history (str b)
+    | none => "err BadHex"
+  | "ylhistory", [h] =>
+    match Hex.dec h with
+    | some b => ylhistory (str b)
     | none => "err BadHex"
   | "jenkins", [h] =>
     match Hex.dec h with
